@@ -152,7 +152,9 @@ CHECKS = {
              "one: TTSound at all times, ResultIsMinimax, NothingLeftBehind (the pre-repair behaviour StoreOnAbort=TRUE is kept as a "
              "regression model TLC must reject); also on the pseudo-random graph family. Conformance: for every node count k = 1..total AND every poll index j (the j-th "
              "should_stop() is the first to answer true) of real searches: interrupted search(es), then a completed one; TLC audits every "
-             "cached claim left behind, every later result against minimax, and the repetition stack length. Step-level binding "
+             "cached claim left behind, every later result against minimax, and the repetition stack length. On game positions of every phase: interrupted at a random poll, "
+             "then a completed search on the same Searcher = the fresh engine's value; in every second shard with a GAME HISTORY (a round trip played twice) and the engine's "
+             "repetition answers for all successors compared before / after the interrupted search (BellmanTrace.tla, TAbortEq). Step-level binding "
              "(no verdict): interrupted + completed searches executed step by step by Search.tla in poll-budget mode (SearchTrace.tla).",
         design_ref="DESIGN.md section 5 C06, 11.5", note=_SEARCH_NOTE + " Deadlines are injected through the node/poll-budget hook in SearchTimer::should_stop.",
         technique="TLA+/PlusCal search spec with clock process model-checked by TLC; enumeration of every interruption point on the real search, audited by TLC"),
